@@ -79,6 +79,9 @@ Calls ==
   \cup {[op |-> "key.NewPublicFromPoint", p |-> p, w |-> w] : p \in PS, w \in 1..WKey}
   \cup {[op |-> "key.PubPoint", v |-> v, w |-> w] : v \in PS, w \in 1..WKey}
   \cup {[op |-> o, p |-> p] : o \in {"pt.IsYOdd"}, p \in PS}
+  \cup {[op |-> "pt.NewFromBytes", v |-> v, b |-> b, w |-> w] : v \in PS, b \in BS, w \in 1..WDecode}
+  \cup {[op |-> o, v |-> v] : o \in {"pt.NewIdentity", "pt.NewGenerator"}, v \in PS}
+  \cup {[op |-> "pt.NewFrom", v |-> v, p |-> p] : v \in PS, p \in PS}
   \cup {[op |-> "pt.FromCoords", v |-> v, b |-> b] : v \in PS, b \in BS}
   \cup {[op |-> "pt.Recover", v |-> v, s |-> s, c |-> c] : v \in PS, s \in SS, c \in {0, 1, 2, 3, 4}}
   \cup {[op |-> o, b |-> b, w |-> w] : o \in {"skey.New", "skey.Bytes", "spub.New", "spub.Bytes"}, b \in BS, w \in 1..WKey}
@@ -111,6 +114,10 @@ Preludes ==
        [op |-> "key.NewPrivateFromScalar", s |-> 0], [op |-> "key.PubPoint", v |-> 0] >>,
     << [op |-> "env.LoadBuf", b |-> 0, cls |-> "sc_small", content |-> Content("sc_small")], [op |-> "skey.New", b |-> 0], [op |-> "spub.Bytes", b |-> 0] >>,
     << [op |-> "env.LoadBuf", b |-> 0, cls |-> "xonly", content |-> Content("xonly")], [op |-> "spub.New", b |-> 0] >>,
+    << [op |-> "env.LoadBuf", b |-> 0, cls |-> "inf", content |-> Content("inf")], [op |-> "pt.NewFromBytes", v |-> 0, b |-> 0],
+       [op |-> "env.MutatePoint", p |-> 0], [op |-> "pt.NewFromBytes", v |-> 1, b |-> 0], [op |-> "pt.NewIdentity", v |-> 0] >>,
+    << [op |-> "pt.NewGenerator", v |-> 0], [op |-> "env.MutatePoint", p |-> 0], [op |-> "pt.NewGenerator", v |-> 1],
+       [op |-> "pt.NewIdentity", v |-> 0], [op |-> "env.MutatePoint", p |-> 0], [op |-> "pt.NewIdentity", v |-> 1] >>,
     << [op |-> "env.LoadBuf", b |-> 0, cls |-> "sc_nm1", content |-> Content("sc_nm1")], [op |-> "key.NewPrivate", b |-> 0], [op |-> "skey.FromECDSA"],
        [op |-> "spub.Point", v |-> 0] >>,
     << [op |-> "env.LoadBuf", b |-> 0, cls |-> "sc_n", content |-> Content("sc_n")], [op |-> "sc.SetCanonicalBytes", s |-> 0, b |-> 0],
